@@ -228,6 +228,9 @@ func nlGenCase(seed int64, idx int) nlCase {
 			if p.Late {
 				p.GateAfter = rng.Intn(nm)
 			}
+			if p.Late || p.Phase == 2 {
+				p.Mode = "A" // a conn that outlives the listener is never closed by the server first (see nlStream.bDecision)
+			}
 			plans = append(plans, p)
 		}
 		cs.Streams = append(cs.Streams, plans)
@@ -237,7 +240,7 @@ func nlGenCase(seed int64, idx int) nlCase {
 		cs.Streams[0][0].Phase, cs.Streams[0][0].Late = 1, false
 		last := cs.Streams[cs.Clients-1]
 		if len(last) > 1 || cs.Clients > 1 {
-			last[len(last)-1].Phase, last[len(last)-1].Late, last[len(last)-1].GateAfter = 2, false, -1
+			last[len(last)-1].Phase, last[len(last)-1].Late, last[len(last)-1].GateAfter, last[len(last)-1].Mode = 2, false, -1, "A"
 		}
 	}
 	nonLate := 0
@@ -332,10 +335,12 @@ type nlRun struct {
 	stranded     int64
 	watchdogFire int32
 	handlerSeq   int64
+	failed       int32
 	bInFlight    int32 // streams whose server conn was closed first and whose client has not finished yet
 }
 
 func (r *nlRun) violate(format string, a ...interface{}) {
+	atomic.StoreInt32(&r.failed, 1) // the verdict of this execution is decided: the script is wound up without further waiting
 	r.mu.Lock()
 	if len(r.viol) < 10 {
 		r.viol = append(r.viol, fmt.Sprintf(format, a...))
@@ -447,6 +452,12 @@ func (r *nlRun) clientStream(s *nlStream) {
 	who := fmt.Sprintf("client stream %d/%d", s.ci, s.si)
 	rng := rand.New(rand.NewSource(r.cs.Seed ^ int64(s.ci*1000+s.si+1)*7919))
 	defer func() {
+		atomic.StoreInt32(&s.done, 1)
+		if s.plan.Phase == 1 && !s.plan.Late {
+			atomic.AddInt32(&r.nonLateDone, 1)
+		}
+	}()
+	defer func() {
 		// whatever happened: once the server's decision is known, this client no longer reads
 		go func() {
 			<-s.bDecision
@@ -495,6 +506,10 @@ func (r *nlRun) clientStream(s *nlStream) {
 	rbuf := make([]byte, 332000)
 	off, echoed := 0, 0
 	for mi, m := range s.plan.Msgs {
+		if atomic.LoadInt32(&r.failed) == 1 {
+			closeStream() // the execution is already judged; stay away from sessions that may be ending
+			return
+		}
 		msg := make([]byte, m)
 		fillKeyed(msg, s.key, uint64(off))
 		if mi == 0 {
@@ -597,10 +612,6 @@ func (r *nlRun) clientStream(s *nlStream) {
 	}
 	closeStream()
 	r.postCloseChecks(who, st)
-	atomic.StoreInt32(&s.done, 1)
-	if s.plan.Phase == 1 && !s.plan.Late {
-		atomic.AddInt32(&r.nonLateDone, 1)
-	}
 }
 
 // server side of one accepted conn -------------------------------------------------------------
@@ -716,7 +727,7 @@ func (r *nlRun) handle(conn net.Conn, afterClose bool) {
 	}
 	if mode == "B" {
 		r.lnMu.RLock()
-		if !r.lnClosed && !afterClose {
+		if !r.lnClosed && !afterClose && !s.plan.Late && s.plan.Phase == 1 {
 			atomic.AddInt32(&r.bInFlight, 1)
 			atomic.StoreInt32(&s.serverCloses, 1)
 		}
@@ -838,11 +849,11 @@ func (r *nlRun) closer() {
 		if p1 < r.cs.NPhase1 || int(atomic.LoadInt32(&r.nonLateDone)) < r.cs.CloseAfter {
 			return false
 		}
-		return r.cs.NPhase2 == 0 || len(r.l.backlog) >= r.cs.NPhase2
+		return r.cs.NPhase2 == 0 || (len(r.l.backlog) >= r.cs.NPhase2 && r.p2Delivered())
 	}
 	if !waitUntil(120*time.Second, func() bool {
-		return cond() || atomic.LoadInt32(&r.watchdogFire) == 1
-	}) || !cond() {
+		return cond() || atomic.LoadInt32(&r.watchdogFire) == 1 || atomic.LoadInt32(&r.failed) == 1
+	}) || (!cond() && atomic.LoadInt32(&r.failed) == 0) {
 		r.mu.Lock()
 		p1 := r.p1SurfacedN
 		r.mu.Unlock()
@@ -864,12 +875,12 @@ func (r *nlRun) closer() {
 	}
 	for {
 		r.lnMu.Lock()
-		if atomic.LoadInt32(&r.bInFlight) == 0 || atomic.LoadInt32(&r.watchdogFire) == 1 {
+		if atomic.LoadInt32(&r.bInFlight) == 0 || atomic.LoadInt32(&r.watchdogFire) == 1 || atomic.LoadInt32(&r.failed) == 1 {
 			break
 		}
 		r.lnMu.Unlock()
 		if !waitUntil(120*time.Second, func() bool {
-			return atomic.LoadInt32(&r.bInFlight) == 0 || atomic.LoadInt32(&r.watchdogFire) == 1
+			return atomic.LoadInt32(&r.bInFlight) == 0 || atomic.LoadInt32(&r.watchdogFire) == 1 || atomic.LoadInt32(&r.failed) == 1
 		}) {
 			r.abort("streams closed by the server did not finish on the client side")
 			atomic.StoreInt32(&r.watchdogFire, 1)
@@ -912,6 +923,45 @@ func (r *nlRun) closer() {
 	}
 }
 
+// p2Delivered: every backlog stream's first message has been written completely by its client AND has reached the server
+// side stream (one pending element per Write; nobody reads from a conn that sits in the backlog). Without this the listener
+// would be closed with stream data in flight: the drained conn's late data re-creates the stream on the server ("zombie"),
+// which arrives at the listener's per-session goroutine after Close (see nlInflightProbe), and a client still inside its
+// Write would be caught by the session teardown (known finding F2).
+func (r *nlRun) p2Delivered() bool {
+	for _, ss := range r.streams {
+		for _, s := range ss {
+			if s.plan.Phase != 2 {
+				continue
+			}
+			if atomic.LoadInt32(&s.sent) != 1 {
+				return false
+			}
+			r.mu.Lock()
+			id := s.id
+			r.mu.Unlock()
+			srv := r.servers[s.ci]
+			srv.streamLock.RLock()
+			st := srv.streams[id]
+			srv.streamLock.RUnlock()
+			if st == nil {
+				return false
+			}
+			st.pendingData.Lock()
+			n := len(st.pendingData.unread)
+			st.pendingData.Unlock()
+			want := 1
+			if s.plan.HdrSplit {
+				want = 2
+			}
+			if n < want {
+				return false
+			}
+		}
+	}
+	return true
+}
+
 func (r *nlRun) abortedList() []string {
 	r.mu.Lock()
 	defer r.mu.Unlock()
@@ -919,8 +969,15 @@ func (r *nlRun) abortedList() []string {
 }
 
 // nlRunCase returns false when goroutines are left behind (the worker process must be replaced).
+var nlPhaseTimes string
+
 func nlRunCase(col *nlCol, cs nlCase, can *canary) (clean bool) {
 	name := fmt.Sprintf("nl-%d", cs.Idx)
+	tStart := time.Now()
+	var tSetup, tScript, tEnded time.Duration
+	defer func() {
+		nlPhaseTimes = fmt.Sprintf("setup=%.2f script=%.2f ended=%.2f total=%.2f", tSetup.Seconds(), tScript.Seconds(), tEnded.Seconds(), time.Since(tStart).Seconds())
+	}()
 	r := &nlRun{col: col, cs: cs, name: name, can: can, srvIndex: map[*Session]int{}, wrapped: map[*Stream]int{},
 		lnClosedCh: make(chan struct{}), p1Surfaced: make(chan struct{}), resumeAcc: make(chan struct{}), acceptDone: make(chan struct{})}
 	path := filepath.Join(sockDir(), fmt.Sprintf("nl-%d-%d.sock", os.Getpid(), cs.Idx))
@@ -937,37 +994,50 @@ func nlRunCase(col *nlCol, cs nlCase, can *canary) (clean bool) {
 	var prefixes []string
 	fail := ""
 	for c := 0; c < cs.Clients && fail == ""; c++ {
-		conn, err := net.Dial("unix", path)
-		if err != nil {
-			fail = "dial: " + err.Error()
-			break
-		}
-		conf, prefix := newTestConfig(pairOpt{memfd: cs.MemFd[c], bufCap: 24 << 20, initTO: 20 * time.Second})
-		prefixes = append(prefixes, prefix)
-		sess, err := newSession(conf, conn, true)
-		if err != nil {
-			fail = "client session: " + err.Error()
-			break
-		}
-		r.clients = append(r.clients, sess)
-		var found *Session
-		ok := waitUntil(20*time.Second, func() bool {
-			r.l.mu.Lock()
-			defer r.l.mu.Unlock()
-			for s := range r.l.sessions {
-				if _, known := r.srvIndex[s]; !known {
-					found = s
-					return true
-				}
+		// the listener creates the server side with the library's DefaultConfig: its 1 s handshake time-out starts when the raw
+		// connection is accepted, i.e. before this client has even created its share memory. On a loaded machine that can
+		// expire; such an attempt is repeated (the failed client session is closed), it is not an observation about C19.
+		registered := false
+		for attempt := 0; attempt < 4 && !registered && fail == ""; attempt++ {
+			conn, err := net.Dial("unix", path)
+			if err != nil {
+				fail = "dial: " + err.Error()
+				break
 			}
-			return false
-		})
-		if !ok {
-			fail = "the server side of a client session did not register with the listener (handshake time-out of the library's DefaultConfig under load?)"
-			break
+			conf, prefix := newTestConfig(pairOpt{memfd: cs.MemFd[c], bufCap: 16 << 20, initTO: 5 * time.Second,
+				sizes: smallSizes(8192-uint32(bufferHeaderSize), 30, 32*1024-uint32(bufferHeaderSize), 70)})
+			prefixes = append(prefixes, prefix)
+			sess, err := newSession(conf, conn, true)
+			if err != nil {
+				col.count("client connects repeated (server handshake timed out)", 1)
+				continue
+			}
+			var found *Session
+			ok := waitUntil(3*time.Second, func() bool {
+				r.l.mu.Lock()
+				defer r.l.mu.Unlock()
+				for s := range r.l.sessions {
+					if _, known := r.srvIndex[s]; !known {
+						found = s
+						return true
+					}
+				}
+				return false
+			})
+			if !ok {
+				col.count("client connects repeated (server handshake timed out)", 1)
+				sess.Close()
+				waitTeardown(sess, 10*time.Second)
+				continue
+			}
+			registered = true
+			r.clients = append(r.clients, sess)
+			r.srvIndex[found] = c
+			r.servers = append(r.servers, found)
 		}
-		r.srvIndex[found] = c
-		r.servers = append(r.servers, found)
+		if !registered && fail == "" {
+			fail = "the server side of a client session did not register with the listener in 4 attempts (1 s handshake time-out of the library's DefaultConfig under load)"
+		}
 	}
 	teardown := func() {
 		for _, s := range r.clients {
@@ -997,6 +1067,7 @@ func nlRunCase(col *nlCol, cs nlCase, can *canary) (clean bool) {
 		}
 		r.streams = append(r.streams, ss)
 	}
+	tSetup = time.Since(tStart)
 	go r.acceptLoop()
 	for _, ss := range r.streams {
 		for _, s := range ss {
@@ -1019,6 +1090,20 @@ func nlRunCase(col *nlCol, cs nlCase, can *canary) (clean bool) {
 	stuck := false
 	select {
 	case <-allDone:
+	case <-closerDone:
+		// the listener is closed; if a bound was already missed there, do not wait long for the rest
+		limit := 300 * time.Second
+		if atomic.LoadInt32(&r.watchdogFire) == 1 {
+			limit = 5 * time.Second
+		} else if atomic.LoadInt32(&r.failed) == 1 {
+			limit = 20 * time.Second // an oracle already failed: the script is off its rails, do not wait for it
+		}
+		select {
+		case <-allDone:
+		case <-time.After(limit):
+			stuck = true
+			atomic.StoreInt32(&r.watchdogFire, 1)
+		}
 	case <-time.After(300 * time.Second):
 		stuck = true
 		atomic.StoreInt32(&r.watchdogFire, 1)
@@ -1035,13 +1120,14 @@ func nlRunCase(col *nlCol, cs nlCase, can *canary) (clean bool) {
 		}
 		return false
 	}
+	tScript = time.Since(tStart)
 	// ---- the listener is closed, Accept returned its error, every conn ever returned is closed:
 	//      every server session must end (they end when their wait group drains; nothing else is pending)
 	r.mu.Lock()
 	accErr := r.acceptErr
 	r.mu.Unlock()
 	aborted := r.abortedList()
-	if accErr != nil && len(aborted) == 0 {
+	if accErr != nil && len(aborted) == 0 && atomic.LoadInt32(&r.failed) == 0 {
 		can.reset()
 		ended := func() bool {
 			for _, s := range r.servers {
@@ -1089,6 +1175,7 @@ func nlRunCase(col *nlCol, cs nlCase, can *canary) (clean bool) {
 			}
 		}
 	}
+	tEnded = time.Since(tStart)
 	teardown()
 	r.mu.Lock()
 	viol := append([]string{}, r.viol...)
@@ -1176,9 +1263,9 @@ func nlBucket(n int) int {
 
 func nlCaseCount(tier string) int {
 	if tier == "thorough" {
-		return 2000
+		return 5000
 	}
-	return 40
+	return 100
 }
 
 func nlWorker(tier string, seed int64, from int, reportPath string) {
@@ -1188,7 +1275,14 @@ func nlWorker(tier string, seed int64, from int, reportPath string) {
 	can := startCanary()
 	defer can.close()
 	total := nlCaseCount(tier)
+	only := -1
+	if v := os.Getenv("VERIF_NL_ONLY"); v != "" { // debugging aid only
+		only, _ = strconv.Atoi(v)
+	}
 	for i := from; i < total; i++ {
+		if only >= 0 && i != only {
+			continue
+		}
 		cs := nlGenCase(seed, i)
 		col.flush(i, i, false)
 		childLog("case %d", i)
@@ -1204,15 +1298,107 @@ func nlWorker(tier string, seed int64, from int, reportPath string) {
 		}()
 		if os.Getenv("VERIF_NL_DEBUG") != "" {
 			col.mu.Lock()
-			col.r.Timings = append(col.r.Timings, fmt.Sprintf("nl-%d %.2fs clients=%d p1=%d p2=%d late=%d closeAfter=%d", i, time.Since(t0).Seconds(), cs.Clients, cs.NPhase1, cs.NPhase2, cs.NLate, cs.CloseAfter))
+			col.r.Timings = append(col.r.Timings, fmt.Sprintf("nl-%d %.2fs clients=%d p1=%d p2=%d late=%d closeAfter=%d %s", i, time.Since(t0).Seconds(), cs.Clients, cs.NPhase1, cs.NPhase2, cs.NLate, cs.CloseAfter, nlPhaseTimes))
 			col.mu.Unlock()
 		}
 		if !clean {
 			col.flush(i, i+1, false)
 			return // stuck goroutines: the parent starts a fresh worker at the next case
 		}
+		col.mu.Lock()
+		nv := len(col.r.Viol)
+		col.mu.Unlock()
+		if nv >= 5 {
+			col.count("runs cut short after 5 violating cases", 1)
+			col.flush(total, total, true) // the verdict is decided; the remaining cases would only cost their bounds
+			return
+		}
+	}
+	if os.Getenv("VERIF_NL_PROBE") != "" { // opt-in probe, not part of the verdict
+		nlInflightProbe(col)
 	}
 	col.flush(total, total, true)
+	_ = os.RemoveAll(sockDir())
+}
+
+// nlInflightProbe (opt-in, not judged): a stream that reaches the listener's per-session goroutine after listener.Close.
+// One conn is accepted and kept open, the listener is closed, then the client opens a second stream. The goroutine's
+// select has both cases ready (closeCh closed, backlog has room); if it picks the backlog and the application's Accept
+// loop then picks closeCh, the conn stays in the backlog with a reference on the session.
+func nlInflightProbe(col *nlCol) {
+	leaks, runs, queued := 0, 0, 0
+	for i := 0; i < 60; i++ {
+		path := filepath.Join(sockDir(), fmt.Sprintf("nlp-%d-%d.sock", os.Getpid(), i))
+		_ = os.Remove(path)
+		ln, err := Listen(path)
+		if err != nil {
+			return
+		}
+		l := ln.(*listener)
+		conn, err := net.Dial("unix", path)
+		if err != nil {
+			return
+		}
+		conf, _ := newTestConfig(pairOpt{bufCap: 4 << 20, initTO: 5 * time.Second})
+		cli, err := newSession(conf, conn, true)
+		if err != nil {
+			ln.Close()
+			continue
+		}
+		var srv *Session
+		if !waitUntil(3*time.Second, func() bool {
+			l.mu.Lock()
+			defer l.mu.Unlock()
+			for s := range l.sessions {
+				srv = s
+			}
+			return srv != nil
+		}) {
+			cli.Close()
+			ln.Close()
+			continue
+		}
+		s0, _ := cli.OpenStream()
+		_, _ = s0.Write([]byte("first"))
+		c0, err := ln.Accept()
+		if err != nil {
+			continue
+		}
+		_ = ln.Close()
+		s1, _ := cli.OpenStream()
+		_, _ = s1.Write([]byte("second"))
+		fence()
+		time.Sleep(20 * time.Millisecond) // let the per-session goroutine run its select (probe only)
+		if len(l.backlog) > 0 {
+			queued++
+		}
+		var got []net.Conn
+		for {
+			c, err := ln.Accept()
+			if err != nil {
+				break
+			}
+			got = append(got, c)
+		}
+		for _, c := range got {
+			c.Close()
+		}
+		c0.Close()
+		runs++
+		if !waitUntil(2*time.Second, func() bool { return srv.IsClosed() }) {
+			leaks++
+		}
+		s0.Close()
+		s1.Close()
+		cli.Close()
+		srv.Close()
+		waitTeardown(cli, 5*time.Second)
+		waitTeardown(srv, 5*time.Second)
+		os.Remove(path)
+	}
+	col.count("probe: stream arriving after listener.Close: runs", int64(runs))
+	col.count("probe: ... conn was queued into the backlog after Close", int64(queued))
+	col.count("probe: ... session never ended although every returned conn was closed", int64(leaks))
 }
 
 func nlChildMain(args []string) {
@@ -1263,6 +1449,9 @@ func checkNetListener(c *checkCtx) {
 			if strings.Contains(line, `"done"`) {
 				finished = true
 				break
+			}
+			if os.Getenv("VERIF_NL_DEBUG") != "" {
+				fmt.Println("CHILD:", truncate(line, 300))
 			}
 		}
 		ex := cp.wait(20 * time.Second)
